@@ -33,7 +33,7 @@ REPORT_COUNTERS = ['cases', 'rejected_with_diagnostic', 'names_offender', 'Parsi
 
 def plan(tier, seed):
   return {'nshards': 16, 'timeout_s': 5400 if tier == 'thorough' else 1200,
-          'params': {'n_programs': 500 if tier == 'thorough' else 22}}
+          'params': {'n_programs': 150 if tier == 'thorough' else 22}}
 
 
 def pick_rule(prog, rng, want_body=True, non_agg=False):
